@@ -2748,6 +2748,13 @@ func (c *streamableClientConn) connectSSE(ctx context.Context, lastEventID strin
 			}
 			req.Header.Set("Accept", "text/event-stream")
 			resp, err := c.client.Do(req)
+			if err == nil && isTransientHTTPStatus(resp.StatusCode) {
+				// A transient server error (5xx, 429) on a (re)connect attempt is
+				// retried within the retry budget, like a transport error, instead
+				// of breaking the logical stream.
+				resp.Body.Close()
+				err = fmt.Errorf("%s", http.StatusText(resp.StatusCode))
+			}
 			if err != nil {
 				finalErr = err // Store the error and try again.
 				delay = calculateReconnectDelay(attempt + 1)
